@@ -4,13 +4,12 @@
   count too (`run` collects every statement of every `Next() = true`).
 
   `WFStmt` (Props/C05TtlDefs.lean): subject present and IRI/blank node, predicate present and an
-  IRI, object present (by type), graph name absent or (TriG only) IRI/blank node; a language tag
-  occurs only with datatype rdf:langString and is non-empty. Blank nodes carry an identity by
+  IRI, object present (by type), graph name absent or (TriG only) IRI/blank node; a literal carries
+  a (non-empty) language tag EXACTLY when its datatype is rdf:langString and rdf:dirLangString never
+  occurs (repaired code, D41: `"x"^^rdf:langString` is an error). Blank nodes carry an identity by
   construction (`BN.anon n` from the factory counter, `BN.lbl l` from a label). Every literal has
   a datatype by construction (`Term.lit` has no optional datatype).
 
-  NOT claimed (and false on the code, finding D41): "datatype rdf:langString ⇒ a tag is present" —
-  `"x"^^rdf:langString` is yielded with that datatype and no tag. See `ttl_langString_untagged`.
   Absoluteness of IRIs under an absolute base depends on the IRI resolver (`/repo/iri`, a
   `net/url` wrapper) and is checked by the harness oracle only.
 -/
@@ -45,21 +44,24 @@ theorem ttl_default_graph (resolve) (isSpace) (e : End) (base : Option (List Nat
   | none => rfl
   | some g => exact absurd (this g hg).1 (by simp)
 
-/-- The full C06 literal condition also demands a tag whenever the datatype is rdf:langString. -/
-def litTagged : T → Prop
-  | .lit _ dt none => dt ≠ rdfLangString ∧ dt ≠ rdfDirLangString
-  | _ => True
+/-- The literal condition of C06 spelled out: tag present ⇔ datatype rdf:langString. -/
+theorem literal_tag_iff (C : Cfg) (e : End) (hP : C.P.NoPanic) (hL : C.P.LangNonEmpty)
+    (base : Option (List Nat)) (pf : List (List Nat × List Nat)) (inp : List Nat) :
+    ∀ s ∈ (run C e base pf inp).1, ∀ lex dt lang, s.o = .lit lex dt lang →
+      ((∃ t, lang = some t ∧ t ≠ []) ↔ dt = rdfLangString) ∧ dt ≠ rdfDirLangString := by
+  intro s hs lex dt lang ho
+  have := (doc_emits_wf C e hP hL base pf inp s hs).obj
+  rw [ho] at this
+  cases lang with
+  | none => exact ⟨⟨(fun ⟨t, h, _⟩ => by cases h), (fun h => absurd h this.1)⟩, this.2⟩
+  | some t =>
+    refine ⟨⟨fun _ => this.1, fun _ => ⟨t, rfl, this.2⟩⟩, ?_⟩
+    rw [this.1]; decide
 
-/-- full statement (NOT a theorem: false on the code, D41) -/
-def doc_emits_tagged : Prop :=
-  ∀ (trig : Bool) (e : End) (inp : List Nat),
-    ∀ s ∈ (run (C05.realCfg trig (fun _ r => some r) (fun c => c = 0x20)) e none [] inp).1, litTagged s.o
-
-/-- D41 witness: `<a> <b> "x"^^<…#langString> .` yields a literal with datatype rdf:langString and no tag. -/
-theorem ttl_langString_untagged : ¬ doc_emits_tagged := by
-  intro h
-  have := h false .eof (asc "<a> <b> \"x\"^^<http://www.w3.org/1999/02/22-rdf-syntax-ns#langString> .")
-    ⟨some (.iri (asc "a")), some (.iri (asc "b")), .lit (asc "x") rdfLangString none, none⟩ (by decide)
-  exact this.1 rfl
+/-- D41 (repaired): the explicit datatype is rejected; nothing is yielded for that statement. -/
+example :
+    run (C05.realCfg false (fun _ r => some r) (fun c => c = 0x20)) .eof none []
+      (asc "<a> <b> \"x\"^^<http://www.w3.org/1999/02/22-rdf-syntax-ns#langString> .") = ([], .error .syntax) := by
+  decide
 
 end RdfModel.C06
